@@ -517,28 +517,28 @@ def shipped_file(repo, name):
 
 
 # --------------------------------------------------------------------------------------------------- field maxima
-def big_methods():
-    """Fixed representatives at the large end of the size / offset / count fields: [(name, code bytes, tries, handlers)]."""
-    out = []
-    for kind in ("packed", "sparse"):
-        a = D.Asm()
-        sw, t0, t1, t2 = D.Label("sw"), D.Label("t0"), D.Label("t1"), D.Label("t2")
-        pay = D.Label("pay")
-        a.label(sw)
-        a.ins(kind + "-switch", 0, pay)
-        a.label(t0); a.ins("const/4", 0, 0)
-        a.label(t1); a.ins("div-int", 0, 0, 0)
-        a.label(t2); a.ins("return-void")
-        a.align4()
-        a.label(pay)
-        tg = [(t0, t1, t2, sw)[i % 4] for i in range(500)]
-        if kind == "packed":
-            a.packed(sw, -250, tg)
-        else:
-            a.sparse(sw, [7 * i - 1000 for i in range(500)], tg)
-        out.append((kind + "-500-cases", a.assemble()[0], [], []))
-    # offsets beyond 16 bits: goto/32 over 70000 nops, if-eqz with the most negative 16-bit offset, a try range with
-    # insn_count 65535 and a handler address > 65535
+def _big_switch(kind):
+    a = D.Asm()
+    sw, t0, t1, t2 = D.Label("sw"), D.Label("t0"), D.Label("t1"), D.Label("t2")
+    pay = D.Label("pay")
+    a.label(sw)
+    a.ins(kind + "-switch", 0, pay)
+    a.label(t0); a.ins("const/4", 0, 0)
+    a.label(t1); a.ins("div-int", 0, 0, 0)
+    a.label(t2); a.ins("return-void")
+    a.align4()
+    a.label(pay)
+    tg = [(t0, t1, t2, sw)[i % 4] for i in range(500)]
+    if kind == "packed":
+        a.packed(sw, -250, tg)
+    else:
+        a.sparse(sw, [7 * i - 1000 for i in range(500)], tg)
+    return a.assemble()[0], [], []
+
+
+def _big_far_offsets():
+    # goto/32 over 70000 nops, if-eqz with the most negative 16-bit offset, a try range with insn_count 65535 and
+    # handler addresses > 65535
     a = D.Asm()
     L, back = D.Label("L"), D.Label("back")
     a.ins("goto/32", L)
@@ -552,8 +552,10 @@ def big_methods():
     a.ins("return-void")
     code = a.assemble()[0]
     assert (L.off - back.off) // 2 == 32768
-    out.append(("far-offsets", code, [(3, 65535, 0)], [G.Handler([("LE0;", L.off // 2)], L.off // 2 + 2)]))
-    # fill-array-data with an 80000-byte payload, referenced from behind it
+    return code, [(3, 65535, 0)], [G.Handler([("LE0;", L.off // 2)], L.off // 2 + 2)]
+
+
+def _big_array():
     a = D.Asm()
     S2, P2 = D.Label("S"), D.Label("P")
     a.ins("goto/32", S2)
@@ -563,8 +565,72 @@ def big_methods():
     a.label(S2)
     a.ins("fill-array-data", 0, P2)
     a.ins("return-void")
-    out.append(("array-80000-bytes", a.assemble()[0], [], []))
-    return out
+    return a.assemble()[0], [], []
+
+
+def _big_far_payload(backward):
+    """31t offsets beyond 0x8000 code units (more than 64 KiB between the instruction and its payload)."""
+    a = D.Asm()
+    sw, t0, t1, pay, arr, S = (D.Label(x) for x in ("sw", "t0", "t1", "pay", "arr", "S"))
+    if not backward:
+        a.label(sw); a.ins("packed-switch", 0, pay)
+        a.ins("fill-array-data", 0, arr)
+        a.label(t0); a.ins("const/4", 0, 0)
+        a.label(t1); a.ins("return-void")
+        for _ in range(0x9000):
+            a.ins("nop")
+        a.align4(); a.label(pay); a.packed(sw, 0, [t0, t1, sw])
+        a.align4(); a.label(arr); a.array(2, b"\x01\x02\x03\x04")
+    else:
+        a.ins("goto/32", S)
+        a.align4(); a.label(pay); a.sparse(sw, [-5, 5], [t0, t1])
+        a.align4(); a.label(arr); a.array(4, b"\x01\x02\x03\x04")
+        for _ in range(0x9000):
+            a.ins("nop")
+        a.label(S)
+        a.label(sw); a.ins("sparse-switch", 0, pay)
+        a.ins("fill-array-data", 0, arr)
+        a.label(t0); a.ins("const/4", 0, 0)
+        a.label(t1); a.ins("return-void")
+    return a.assemble()[0], [], []
+
+
+# encoding-width boundaries of the try / handler tables: the encoded_catch_handler_list size, handler type indices and
+# handler addresses are ULEB128 values that grow from one to two bytes at 128
+HB_SIZES = (126, 127, 128, 129, 130)
+HB_SELECT = ("first", "last", "boundary", "all")
+
+
+def _handler_boundary(H, sel):
+    """H handler entries (entry i: typed LHi; -> instruction i, every third one catch-all instead), code = 132 const/4 +
+    return-void; try items of one instruction each that reference the first / last / the entries around index 127 / all."""
+    n = 132
+    code = _CONST * n + _RET
+    hs = []
+    for i in range(H):
+        if i % 3 == 2:
+            hs.append(G.Handler([], i))
+        else:
+            hs.append(G.Handler([("LH%03d;" % i, i)], None))
+    idx = {"first": [0], "last": [H - 1], "boundary": [i for i in (126, 127, 128) if i < H], "all": list(range(H))}[sel]
+    tries = [(i + 1, 1, i) for i in idx]                  # try k covers instruction k+1, its handler sits at instruction k
+    return code, tries, hs
+
+
+BIG_BUILDERS = {"packed-500-cases": lambda: _big_switch("packed"), "sparse-500-cases": lambda: _big_switch("sparse"),
+                "far-offsets": _big_far_offsets, "array-80000-bytes": _big_array,
+                "far-payload-forward": lambda: _big_far_payload(False),
+                "far-payload-backward": lambda: _big_far_payload(True)}
+for _H in HB_SIZES:
+    for _s in HB_SELECT:
+        BIG_BUILDERS["handlers-%d-%s" % (_H, _s)] = (lambda H=_H, s=_s: _handler_boundary(H, s))
+BIG = tuple(BIG_BUILDERS)
+
+
+def big_method(name):
+    """Fixed representatives at the large end / at the encoding-width boundaries of the size, offset and count fields
+    -> (code bytes, tries, handlers)."""
+    return BIG_BUILDERS[name]()
 
 
 def wrap_raw(code, tries=(), handlers=(), name="big"):
